@@ -102,7 +102,13 @@ func runC10(c *Ctx) {
 	if c.thorough() {
 		reps = 40
 	}
-	subjects := [][2]string{{"i.foo", "i.>"}, {"i.foo", "i.foo"}, {"i.*.bar", "i.*.bar"}, {"i.a.b", "i.*.b"}, {"i.a.>", "i.>"}, {"i.x", "*.x"}, {"q", ">"}}
+	subjects := [][2]string{{"i.foo", "i.>"}, {"i.foo", "i.foo"}, {"i.*.bar", "i.*.bar"}, {"i.a.b", "i.*.b"}, {"i.a.>", "i.>"}, {"i.x", "*.x"}, {"q", ">"},
+		{"i.a.b.c", "i.a.>"}, {"i.*.c", "i.*.*"}, {"i.a", "*.*"}, {"i.>", "i.>"}}
+	// near misses: the granted subject looks close but does not contain the imported one
+	// (a '>' that is not the last token is an ordinary token; '>' needs at least one token; '*' exactly one)
+	nearMiss := [][2]string{{"i.eu.public", "i.>.internal"}, {"i.a.b", "i.>.b"}, {"i.a.b", "i.*"}, {"i.>", "i.*"}, {"i.*", "i.a"},
+		{"i.foo.bar", "i.foo"}, {"i.foo", "i.foo.>"}, {"i.foo", "i.foo.bar"}, {"i.a.b", "*.a"}, {"i", ">.x"}, {"i.a", "i.a.*"}, {"i.>", "i.a.>"},
+		{"i.a.b", "i.a.b.>"}, {"i.a.b", ">.a.b"}}
 	for rep := 0; rep < reps; rep++ {
 		for pi := 0; pi < 40; pi++ {
 			pat := pi
@@ -118,7 +124,12 @@ func runC10(c *Ctx) {
 					sp := subjects[c.Rng.Intn(len(subjects))]
 					subj, grant := sp[0], sp[1]
 					if !ok[4] {
-						grant = []string{"other.subject", "i", "i.foo.bar.baz", "j.>"}[c.Rng.Intn(4)]
+						if c.Rng.Intn(3) == 0 {
+							grant = []string{"other.subject", "i", "i.foo.bar.baz", "j.>"}[c.Rng.Intn(4)]
+						} else {
+							nm := nearMiss[c.Rng.Intn(len(nearMiss))]
+							subj, grant = nm[0], nm[1]
+						}
 					}
 					tokKind := kind
 					if !ok[3] {
